@@ -37,6 +37,7 @@ type Program struct {
 	boundedCHA map[*ssa.Function][]*ssa.Function
 	boundedVTA map[*ssa.Function][]*ssa.Function
 	TypeErrors int
+	live       map[*ssa.Function]bool
 }
 
 func goEnv(extra ...string) []string {
